@@ -2108,7 +2108,13 @@ func (g *gen) rotationScenario(idx int) {
 		if shape[1] == 0 {
 			shape[1] = shape[2]
 		}
+		if shape[1] == 0 {
+			shape[1] = shape[0]
+		}
 		shape[0], shape[1], shape[2] = shape[1], 0, 0
+	}
+	if shape[0]+shape[1]+shape[2] == 0 {
+		shape[0] = 1 + r.Intn(5)
 	}
 	sessTable := variant == 2 && r.Intn(3) == 0
 	if sessTable {
